@@ -20,3 +20,13 @@ PROPS = {
     "C43": ["c43_wrap"],
     "C46": ["c46_pid"],
 }
+
+
+# overlay: contracts/registry/<ID>.txt lists (one per line) the contract modules carrying property <ID>
+import os as _os
+_rd = _os.path.join(_os.path.dirname(_os.path.abspath(__file__)), "registry")
+if _os.path.isdir(_rd):
+    for _f in sorted(_os.listdir(_rd)):
+        if _f.endswith(".txt"):
+            with open(_os.path.join(_rd, _f)) as _fh:
+                PROPS[_f[:-4]] = [l.strip() for l in _fh if l.strip() and not l.startswith("#")]
